@@ -14,11 +14,13 @@ import (
 	"github.com/ory/keto/internal/driver/config"
 	"github.com/ory/keto/internal/namespace"
 	"github.com/ory/keto/internal/namespace/ast"
+	"github.com/ory/keto/internal/x/dbx"
 	"github.com/ory/keto/ketoapi"
 	rts "github.com/ory/keto/proto/ory/keto/relation_tuples/v1alpha2"
+	"github.com/ory/x/networkx"
 )
 
-func init() { suites["ENGINE"] = suiteEngine }
+func init() { suites["ENGINE"] = suiteEngine; suites["NETENG"] = suiteEngine }
 
 // ---------- configuration generator ----------
 type genCfg struct {
@@ -327,6 +329,75 @@ func egTuples(r *rng, nss []*namespace.Namespace, n int, conform bool) []*ketoap
 	return ts
 }
 
+// egMotif plants a "near-collision" structure: one subject-set relation x:X#r0 with TWO subject sets that differ in
+// exactly one component (relation, object or namespace), each leading over one more hop to its own user.  Any engine
+// state keyed too coarsely (visited sets, caches) answers one of the two users wrongly, whatever the storage order.
+func egMotif(r *rng, nss []*namespace.Namespace) (ts []*ketoapi.RelationTuple, qs []*ketoapi.RelationTuple) {
+	plain := func(ns *namespace.Namespace) []string {
+		var out []string
+		for _, rel := range ns.Relations {
+			if rel.SubjectSetRewrite == nil {
+				out = append(out, rel.Name)
+			}
+		}
+		return out
+	}
+	var cand []*namespace.Namespace
+	for _, ns := range nss[1:] {
+		if len(plain(ns)) > 0 {
+			cand = append(cand, ns)
+		}
+	}
+	if len(cand) == 0 {
+		return nil, nil
+	}
+	nx := cand[r.intn(len(cand))]
+	r0 := r.pick(plain(nx))
+	na := cand[r.intn(len(cand))]
+	nb := cand[r.intn(len(cand))]
+	ra := r.pick(plain(na))
+	x := r.pick(egObjects)
+	a1 := ketoapi.SubjectSet{Namespace: na.Name, Object: r.pick(egObjects), Relation: ra}
+	a2 := a1
+	switch k := r.intn(3); {
+	case k == 0 && len(plain(na)) > 1: // differ in the relation only
+		for a2.Relation == a1.Relation {
+			a2.Relation = r.pick(plain(na))
+		}
+	case k == 1 && len(cand) > 1: // differ in the namespace only
+		for a2.Namespace == a1.Namespace {
+			a2.Namespace = cand[r.intn(len(cand))].Name
+		}
+		if r.chance(1, 2) {
+			a2.Relation = a1.Relation // may be undeclared there: allowed outside strict mode
+		}
+	default: // differ in the object only
+		for a2.Object == a1.Object {
+			a2.Object = r.pick(egObjects)
+		}
+	}
+	rc := r.pick(plain(nb))
+	q1 := ketoapi.SubjectSet{Namespace: nb.Name, Object: "m1", Relation: rc}
+	q2 := ketoapi.SubjectSet{Namespace: nb.Name, Object: "m2", Relation: rc}
+	u0, u1, u2 := egUsers[0], egUsers[1], egUsers[2]
+	mk := func(ns, obj, rel string, sid *string, ss *ketoapi.SubjectSet) *ketoapi.RelationTuple {
+		return &ketoapi.RelationTuple{Namespace: ns, Object: obj, Relation: rel, SubjectID: sid, SubjectSet: ss}
+	}
+	ts = []*ketoapi.RelationTuple{
+		mk(nx.Name, x, r0, nil, &a1), mk(nx.Name, x, r0, nil, &a2),
+		mk(a1.Namespace, a1.Object, a1.Relation, nil, &q1), mk(a2.Namespace, a2.Object, a2.Relation, nil, &q2),
+		mk(q1.Namespace, q1.Object, q1.Relation, &u0, nil), mk(q2.Namespace, q2.Object, q2.Relation, &u1, nil),
+	}
+	if r.chance(1, 2) { // storage order varies with the random shard ids anyway; vary the insertion order too
+		ts[0], ts[1] = ts[1], ts[0]
+	}
+	for _, u := range []string{u0, u1, u2} {
+		u := u
+		qs = append(qs, mk(nx.Name, x, r0, &u, nil))
+	}
+	return ts, qs
+}
+
 func memTok(m checkgroup.Membership) string {
 	switch m {
 	case checkgroup.IsMember:
@@ -344,6 +415,8 @@ type engineEnv struct {
 	strict bool
 	gdepth int
 	width  int
+	dsn    *dbx.DsnT
+	opts   []driver.TestRegistryOption
 }
 
 func newEngineEnv(t *testing.T, nss []*namespace.Namespace, strict bool, useOPL bool, gdepth, width int) *engineEnv {
@@ -359,7 +432,8 @@ func newEngineEnv(t *testing.T, nss []*namespace.Namespace, strict bool, useOPL 
 	} else {
 		opts = append(opts, driver.WithNamespaces(nss))
 	}
-	e := newEnv(t, opts...)
+	dsn := dbx.GetSqlite(t, dbx.SQLiteMemory)
+	e := newEnvDSN(t, dsn, opts...)
 	pool := newPool()
 	for _, s := range egObjects {
 		pool.add(s)
@@ -367,8 +441,53 @@ func newEngineEnv(t *testing.T, nss []*namespace.Namespace, strict bool, useOPL 
 	for _, s := range egUsers {
 		pool.add(s)
 	}
+	pool.add("m1")
+	pool.add("m2")
 	pool.addNet(e.nid, 1)
-	return &engineEnv{e: e, pool: pool, nss: nss, strict: strict, gdepth: gdepth, width: width}
+	return &engineEnv{e: e, pool: pool, nss: nss, strict: strict, gdepth: gdepth, width: width, dsn: dsn, opts: opts}
+}
+
+// shadowNetwork writes relationships into ANOTHER network of the same database, using the very UUIDs network A uses
+// (possible at the Manager level, where ids are given, not derived): for every subject set that occurs in A it adds
+// direct members, and some random rows.  Nothing of this may influence any answer in A (C06).
+func (ee *engineEnv) shadowNetwork(t *testing.T, r *rng, aTuples []*ketoapi.RelationTuple) *env {
+	ctx := context.Background()
+	n2 := networkx.NewNetwork()
+	if err := ee.e.reg.Persister().Connection(ctx).Create(n2); err != nil {
+		t.Fatalf("create network: %v", err)
+	}
+	b := newEnvDSN(t, &dbx.DsnT{Name: ee.dsn.Name, Conn: ee.dsn.Conn}, append(append([]driver.TestRegistryOption{}, ee.opts...), driver.VerifWithContextualizer(&fixedNet{id: n2.ID}))...)
+	if b.nid == ee.e.nid {
+		t.Fatalf("shadow network has the same id")
+	}
+	var sh []*ketoapi.RelationTuple
+	for _, tu := range aTuples {
+		if tu.SubjectSet != nil {
+			for _, u := range egUsers {
+				u := u
+				sh = append(sh, &ketoapi.RelationTuple{Namespace: tu.SubjectSet.Namespace, Object: tu.SubjectSet.Object, Relation: tu.SubjectSet.Relation, SubjectID: &u})
+			}
+		}
+		if tu.SubjectID != nil && r.chance(1, 2) { // the same direct grant for another user
+			u := r.pick(egUsers)
+			sh = append(sh, &ketoapi.RelationTuple{Namespace: tu.Namespace, Object: tu.Object, Relation: tu.Relation, SubjectID: &u})
+		}
+	}
+	sh = append(sh, egTuples(r, ee.nss, 8, false)...)
+	var valid []*ketoapi.RelationTuple
+	for _, tu := range sh {
+		if tu.SubjectID != nil || tu.SubjectSet != nil {
+			valid = append(valid, tu)
+		}
+	}
+	its, err := ee.e.reg.ReadOnlyMapper().FromTuple(ctx, valid...) // A's UUIDs
+	if err != nil {
+		t.Fatalf("shadow mapping: %v", err)
+	}
+	if err := b.reg.RelationTupleManager().WriteRelationTuples(ctx, its...); err != nil {
+		t.Fatalf("shadow write: %v", err)
+	}
+	return b
 }
 
 func (ee *engineEnv) header(out *sink) {
@@ -436,7 +555,9 @@ func suiteEngine(t *testing.T, cfg cfgT) {
 	r := newRng(cfg.seed)
 	cases := 0
 	// corpus: fixed scenarios (regression witnesses) first
-	cases += engineCorpus(t, out)
+	if cfg.suite == "ENGINE" {
+		cases += engineCorpus(t, out)
+	}
 	for cases < cfg.n {
 		hr := r.fork()
 		allowNot := hr.chance(1, 2)
@@ -454,7 +575,21 @@ func suiteEngine(t *testing.T, cfg cfgT) {
 		ee := newEngineEnv(t, nss, strict, useOPL, gdepth, width)
 		ee.header(out)
 		ntup := 4 + hr.intn(22)
-		ee.insert(t, egTuples(hr, nss, ntup, strict || hr.chance(1, 2)))
+		aTuples := egTuples(hr, nss, ntup, strict || hr.chance(1, 2))
+		ee.insert(t, aTuples)
+		var motifQs []*ketoapi.RelationTuple
+		if !strict && !binding && hr.chance(1, 2) {
+			var mt []*ketoapi.RelationTuple
+			mt, motifQs = egMotif(hr, nss)
+			ee.insert(t, mt)
+			aTuples = append(aTuples, mt...)
+			out.stat("envs.motif")
+		}
+		var shadow *env
+		if cfg.suite == "NETENG" {
+			shadow = ee.shadowNetwork(t, hr, aTuples)
+			out.stat("envs.shadow_network")
+		}
 		ee.table(out)
 		out.stat("envs")
 		if strict {
@@ -473,11 +608,17 @@ func suiteEngine(t *testing.T, cfg cfgT) {
 			if hr.chance(1, 4) {
 				rd = hr.intn(11) - 3
 			}
+			if i < len(motifQs) {
+				q, rd = motifQs[i], 0
+			}
 			obs := ee.check(q, rd)
 			// effective-depth pair: the same request against limit eff(r,g) with request depth 0 is compared by the oracle via 'eff'
 			out.emit(fmt.Sprintf("echeck %s %d", fmtTuple(q), rd), obs)
 			out.stat("result." + strings.Fields(obs)[0])
 			cases++
+		}
+		if shadow != nil {
+			shadow.close()
 		}
 		ee.e.close()
 	}
